@@ -70,9 +70,9 @@ func init() {
 			"(A2) every path of Compute that returns an error returns one of the documented kinds after the required decisions: the datasource's error unchanged needs err != nil && !NotFound(err); *NoHistoryError (ChildID = the requested id) needs NotFound(err) && !IgnoreMissingChildren; *NoVisibleChildError needs FindVisible(<this parent>) == nil && !IgnoreInconsistency; any other error needs a child version decided not visible && !IgnoreInconsistency; on every path of annotate.Ways / annotate.Relations that reaches core.Compute a loop over the variadic options has called each option with the very *core.Options value handed to Compute; where Compute's error may be non-nil it is classified against every exported core error type, a recognised *core.T is returned as &annotate.T with the corresponding fields carried over, every other error is returned unchanged, and nil is never returned instead; each exported option constructor returns a function that sets exactly the same-named core.Options field from the constructor's argument and returns nil; " +
 			"(A3) SetChild of every Parent implementation stores, on every path with a non-nil child, exactly {Version, ChangesetID, Lat, Lon} of <member list>[idx], each from the same-named shared.Child field, stores none of them for a nil child and never uses child.<field> before deciding child != nil; Child.Update() returns Version, ChangesetID, Lat, Lon from the same-named fields and Reverse from ReverseOfPrevious on every path, and its Timestamp obeys the truth table over (Timestamp.Before(osm.CommitInfoStart), Committed.IsZero()): Committed exactly when both are false, Timestamp otherwise, with the tests made on the right fields; FromNode/FromWay/FromRelation return a Child whose ID is FeatureID(), whose Version, ChangesetID, Visible, Timestamp (Lat/Lon, Way) are the same-named fields and whose Committed is *Committed on the paths where that pointer was decided non-nil and the zero time on the others; " +
 			"(A4) every function of package annotate that builds a core.ChildList (make(core.ChildList, len(X))) calls X.SortByIDVersion() before the fill loop on every path, every iteration i of that loop stores c = shared.From…(X[i]) with c.VersionIndex = i at list[i] (no iteration without the store, no break), the filled list is what is returned, ReverseOfPrevious is IsReverse(X[i], X[i-1]) only after deciding i != 0; every Datasourcer.Get of package annotate returns nil, the result of such a builder or the user's AsChildren result; the comparator behind each SortByIDVersion, evaluated on all 9 relations of (ID_i vs ID_j, Version_i vs Version_j), is ID_i < ID_j || (ID_i == ID_j && Version_i < Version_j); " +
-			"(A5) locations are recorded as loc{i, j} under refs[j] of parents[i].Refs() and a ref is skipped only after deciding annotated[j] and !opts.ChildFilter(refs[j]); the parent processed is parents[G[0].<parent field>] for a group G produced by the grouping method from the locations of the fetched child, and that method yields maximal runs of one parent index; SetChild stores the result of the child version selector (a function or method (ChildList, ...) -> *shared.Child that searches the list: FindVisible) called with parent.ChangesetID(), a time derived from the parent and opts.Threshold at cl.<index field> for the locations cl of the group; updates are child[k].Update() for the variable k (plus a constant) of one loop with the strict condition k < end and k advanced by one — or for the elements of a range over child[start:end] —, k starts at cur.VersionIndex+1 (cur != nil), VersionBefore(<time of parent>).VersionIndex+1 (cur == nil, non-nil) or 0, within a group only parents[I] and — after deciding I < len(parents)-1 — parents[I+1] are consulted and the bound depends on parents[I+1] when it exists, Update() is called only after deciding child[k].Visible, every value appended to an update list that is (a local copy of) child[k].Update() has Index = cl.<index field> for the location cl of the iteration (range or counting loop) over the group and no other field overwritten, wherever Update() itself is called, and every such iteration appends exactly one, the list accumulated by the window loop is empty at loop entry and is appended to results[I], results = make(…, len(parents)) is what the success path returns; Refs() and SetChild of every Parent implementation address the same member list at the same positions (ids[i] = L[i].FeatureID(), annotated[i] = L[i].Version != 0); " +
+			"(A5) locations are recorded as loc{i, j} under refs[j] of parents[i].Refs() and a ref is skipped only after deciding annotated[j] and !opts.ChildFilter(refs[j]); the parent processed is parents[G[0].<parent field>] for a group G produced by the grouping method from the locations of the fetched child, and that method yields maximal runs of one parent index; SetChild stores the result of the child version selector (a function or method (ChildList, ...) -> *shared.Child that searches the list: FindVisible) called with parent.ChangesetID(), a time derived from the parent and opts.Threshold at cl.<index field> for the locations cl of the group; updates are child[k].Update() for the variable k (plus a constant) of one loop with the strict condition k < end and k advanced by one — or for the elements of a range over child[start:end] —, k starts at cur.VersionIndex+1 (cur != nil), VersionBefore(<time of parent>).VersionIndex+1 (cur == nil, non-nil) or 0, within a group only parents[I] and — after deciding I < len(parents)-1 — parents[I+1] are consulted and the bound depends on parents[I+1] when it exists, the bound is 0 or <version>.VersionIndex + n where the PROVENANCE of the version fixes n: the last list element when no next parent version exists (n = 1), the result of the selector called with only a time derived from the next parent (the last version before the next parent lies inside this parent's interval, visible or not: n = 1, after deciding it non-nil), the result of the selector called with the next parent's changeset (the version the next parent starts from is the exclusive end: n = 0, or n = 1 exactly on the paths that decided its time Before a time derived from the next parent); any other version (e.g. the current child of this parent) or constant is a violation, Update() is called only after deciding child[k].Visible, every value appended to an update list that is (a local copy of) child[k].Update() has Index = cl.<index field> for the location cl of the iteration (range or counting loop) over the group and no other field overwritten, wherever Update() itself is called, and every such iteration appends exactly one, the list accumulated by the window loop is empty at loop entry and is appended to results[I], results = make(…, len(parents)) is what the success path returns; Refs() and SetChild of every Parent implementation address the same member list at the same positions (ids[i] = L[i].FeatureID(), annotated[i] = L[i].Version != 0); " +
 			"(A6) every success path of Compute runs a loop whose every iteration calls SortByIndex on the result list at its position, and the comparator behind osm.Updates.SortByIndex, evaluated on all 27 relations of (Index, Timestamp, Version) of two updates, is the strict lexicographic order: updates of one child location are applied oldest version last-wins even when timestamps are equal (sort.Sort is not stable). " +
-			"NOT decided: FindVisible / nextVersionIndex / VersionBefore threshold arithmetic (e.g. whether a boundary comparison is < or <=), the time-travel consequence (ApplyUpdatesUpTo(t) reproduces the state at t), correctness of user-supplied AsChildren datasources (their VersionIndex is trusted), Way/Relation.applyUpdate (C15.U4), that ApplyUpdatesUpTo applies the updates in slice order (C15) and the other comparators of package osm (C12). A code shape the interpreter cannot follow (goto, fallthrough, defer/go/select, address of a non-struct local, more than 20000 paths) makes the affected obligations Unknown (fails), never silently OK.",
+			"NOT decided: the arithmetic inside FindVisible / VersionBefore and the time comparisons of nextVersionIndex (e.g. whether a boundary comparison is < or <=; which times are compared), the time-travel consequence (ApplyUpdatesUpTo(t) reproduces the state at t), correctness of user-supplied AsChildren datasources (their VersionIndex is trusted), Way/Relation.applyUpdate (C15.U4), that ApplyUpdatesUpTo applies the updates in slice order (C15) and the other comparators of package osm (C12). A code shape the interpreter cannot follow (goto, fallthrough, defer/go/select, address of a non-struct local, more than 20000 paths) makes the affected obligations Unknown (fails), never silently OK.",
 		Assumptions: []string{
 			"go/types (x/tools v0.29.0 go/packages loader)",
 			"calls that are not inlined are pure functions of their receiver and arguments (Parent.Visible, ChangesetID, Timestamp, Committed, Refs, Datasourcer.Get/NotFound, ChildList.FindVisible/VersionBefore, time.Time.Before/IsZero, FeatureID, IsReverse, Polygon): the same term denotes the same value along a path; decisions about a memory place are dropped when that place is stored to",
@@ -89,7 +89,7 @@ func init() {
 			{ID: "A2", Floor: 18, Doc: "option-gated typed errors, error mapping, options set same-named fields (floor: 4 error kinds of Compute, 4 exported options, {route, options, passthrough, maperr x 2 core error types} x {Ways, Relations})", Run: c11A2},
 			{ID: "A3", Floor: 32, Doc: "copy agreement of SetChild, Child.Update, FromNode/FromWay/FromRelation (floor: {copy, nilchild} x 2 Parent implementations, 6 Update fields + stamp, 8+7+6 Child fields with a counterpart)", Run: c11A3},
 			{ID: "A4", Floor: 14, Doc: "child lists are version-sorted before VersionIndex is assigned; list index == VersionIndex (floor: {sorted, index} x 3 osm source types + reverse@Ways, 4 Get methods, 3 comparators)", Run: c11A4},
-			{ID: "A5", Floor: 13, Doc: "shape of the update window and per-parent grouping in Compute (floor: refs@ x 2 Parent implementations, loc, filter, group parent-index, grouping method, current, window loop/start/end/visible-only/update-index, results)", Run: c11A5},
+			{ID: "A5", Floor: 14, Doc: "shape of the update window and per-parent grouping in Compute (floor: refs@ x 2 Parent implementations, loc, filter, group parent-index, grouping method, current, window loop/start/end/bound/visible-only/update-index, results)", Run: c11A5},
 			{ID: "A6", Floor: 2, Doc: "application order of a parent's updates: Compute sorts every result list with SortByIndex; its comparator is the strict lexicographic order over (Index, Timestamp, Version) (floor: sort@Compute, order@Updates.SortByIndex)", Run: c11A6},
 		},
 		Benign: c11Benign,
@@ -191,6 +191,35 @@ func init() {
 				Find:       "\t\t\t\t\tfor _, cl := range locs {\n\t\t\t\t\t\tu := child[k].Update()\n\t\t\t\t\t\tu.Index = cl.Index\n\t\t\t\t\t\tupdates = append(updates, u)\n\t\t\t\t\t}\n",
 				Replace:    "\t\t\t\t\tu := child[start].Update()\n\t\t\t\t\tfor _, cl := range locs {\n\t\t\t\t\t\tu.Index = cl.Index\n\t\t\t\t\t\tupdates = append(updates, u)\n\t\t\t\t\t}\n",
 				ExpectRule: "A5", ExpectConstruct: "window@Compute"},
+			// ---- round 4: provenance of the window bound
+			{Name: "bound-fallback-visible-version-excluded", File: cmp,
+				Find:       "\t// visble or not, we want to want to include it.\n\t// novisible versions of this child will be filtered out below.\n\treturn next.VersionIndex + 1\n}\n",
+				Replace:    "\tif !next.Visible {\n\t\t// deleted before the next parent, we want to include the delete.\n\t\treturn next.VersionIndex + 1\n\t}\n\n\t// this is the version the next parent starts from.\n\treturn next.VersionIndex\n}\n",
+				ExpectRule: "A5", ExpectConstruct: "window@Compute bound"},
+			{Name: "bound-fallback-plus-one-dropped", File: cmp,
+				Find:       "\t// visble or not, we want to want to include it.\n\t// novisible versions of this child will be filtered out below.\n\treturn next.VersionIndex + 1\n}\n",
+				Replace:    "\treturn next.VersionIndex\n}\n",
+				ExpectRule: "A5", ExpectConstruct: "window@Compute bound"},
+			{Name: "bound-at-next-always-included", File: cmp,
+				Find:       "\t\tif timeThreshold(next, 0).Before(timeThresholdParent(nextParent, -opts.Threshold)) {\n\t\t\treturn next.VersionIndex + 1\n\t\t}\n\n\t\treturn next.VersionIndex\n",
+				Replace:    "\t\tif timeThreshold(next, 0).Before(timeThresholdParent(nextParent, -opts.Threshold)) {\n\t\t\treturn next.VersionIndex + 1\n\t\t}\n\n\t\treturn next.VersionIndex + 1\n",
+				ExpectRule: "A5", ExpectConstruct: "window@Compute bound"},
+			{Name: "bound-fallback-plus-two", File: cmp,
+				Find:       "\t// visble or not, we want to want to include it.\n\t// novisible versions of this child will be filtered out below.\n\treturn next.VersionIndex + 1\n}\n",
+				Replace:    "\treturn next.VersionIndex + 2\n}\n",
+				ExpectRule: "A5", ExpectConstruct: "window@Compute bound"},
+			{Name: "bound-from-stale-variable-after-rename", File: cmp,
+				Find:       "\tnext = child.VersionBefore(ts)\n\tif next == nil {\n\t\t// missing at current and next parent.\n\t\treturn 0 // no updates.\n\t}\n\n\t// visble or not, we want to want to include it.\n\t// novisible versions of this child will be filtered out below.\n\treturn next.VersionIndex + 1\n}\n",
+				Replace:    "\tlast := child.VersionBefore(ts)\n\tif last == nil {\n\t\t// missing at current and next parent.\n\t\treturn 0 // no updates.\n\t}\n\n\treturn next.VersionIndex + 1\n}\n",
+				ExpectRule: "A5", ExpectConstruct: "window@Compute bound"},
+			{Name: "bound-from-current-child", File: cmp,
+				Find:       "\t// visble or not, we want to want to include it.\n\t// novisible versions of this child will be filtered out below.\n\treturn next.VersionIndex + 1\n}\n",
+				Replace:    "\tif current != nil {\n\t\treturn current.VersionIndex + 1\n\t}\n\n\treturn next.VersionIndex + 1\n}\n",
+				ExpectRule: "A5", ExpectConstruct: "window@Compute bound"},
+			{Name: "bound-last-version-excluded", File: cmp,
+				Find:       "\t\treturn child[len(child)-1].VersionIndex + 1\n",
+				Replace:    "\t\treturn child[len(child)-1].VersionIndex\n",
+				ExpectRule: "A5", ExpectConstruct: "window@Compute bound"},
 		},
 	})
 }
